@@ -27,6 +27,11 @@ CHECKS = {
   "Seeded search over interleavings of 2-3 rule-set writers (one per source) and 1-2 readers on the real repository and radix tree, compiled from a generated copy whose locks park at a seeded scheduler; every run is executed under the race detector (scheduler hand-offs hidden from it) and its history plus a final lookup sweep is checked for linearizability with porcupine; deadlocks and task panics are violations. Evidence over the sampled schedules, not a proof.",
   "Trusts: interleavings matter only at lock operations, inserted yield points and (through the happens-before race detector) unsynchronised accesses; the race detector's report for a given schedule is not fully deterministic (4 shadow cells per word), so replays of data races re-execute the schedule up to 12 times; sync.Pool is compiled so that it never recycles objects in these binaries; porcupine timeouts count as inconclusive.",
   "DESIGN.md section 3 C07"),
+"C10": ("time-sim",
+  "deterministic fake-clock simulation (testing/synctest bubble) of the whole decision service with simulated remote parties and transport faults; observation-based oracle over seeded request histories; shrinking and replay",
+  "Seeded search over (mechanism, cache kind, configured ttl, credential / response / certificate / token lifetime, leeway, http_cache, fault plan) configurations and request histories over simulated time with instants biased to the validity boundaries and clock jumps; the real service (config loader to decision handler chain, real ttlcache or a Redis-semantics stub) runs in a bubble and every request accepted without contacting the remote party is checked against every validity bound the property names. Evidence over sampled histories, not a proof.",
+  "Trusts: the simulated parties stamp the lifetimes the oracle uses; synctest's fake clock; Redis is a semantics stub (SET PX rejects ttl<=0); content-altering faults are excluded here (C19); unjudged areas are listed in the evidence assumptions.",
+  "DESIGN.md section 3 C10"),
 }
 
 PENDING = [p for p in ["C01","C04","C07","C10","C11","C16","C17","C18","C19"] if p not in CHECKS]
@@ -53,6 +58,7 @@ def main():
     engines = [
       {"name":"repo-history","path":"/verif/harness/internal/rules","serves_properties":["C06"],"kind_free_text":"sequential reference-model conformance over seeded operation histories (real factory, processor, repository, radix tree)"},
       {"name":"repo-sched","path":"/verif/harness/internal/rules","serves_properties":["C07"],"kind_free_text":"seeded cooperative scheduler (simsync) + race detector + porcupine over the instrumented repository"},
+      {"name":"time-sim","path":"/verif/harness/internal/verifsim/timesim","serves_properties":["C10","C11"],"kind_free_text":"synctest bubble (fake clock) around the whole decision service built from its real constructors, simnet simulated parties with fault plans, real in-memory cache or Redis-semantics stub"},
     ]
     m = {
      "version":1,
